@@ -1,4 +1,5 @@
 from vf.props.common import *
+from vf import planenv
 EXPLANATION = ('cbmc over the real accounting code of cr.c (_soxr_input/_process/stage_process/_output/_flush) with abstract stage '
                'kernels: inductive step from ANY state satisfying the invariant samples_in == accepted, samples_out == delivered '
                '(- owed after end-of-input): end-of-input fixes the total at round-half-up(N/io_ratio), never more than owed is '
@@ -20,4 +21,6 @@ def obligations(tier):
     for (it, ot) in [(0, 1), (3, 2), (6, 3)]:       # pull: end-of-input from the input function must start the drain in the same call
         for kind in (2, 3):
             obls.append(api_step(2, it, ot, kind, 2))
+    obls += dft_set(tier)      # the DFT stage: block bookkeeping and phase carry of the real dft_stage_fn
+    obls += planenv.obls(tier)      # ENV-(b): plans of the real _soxr_init inside the envelope the kernel obligations assume (enumeration, labelled)
     return obls
